@@ -242,6 +242,10 @@ def semantic_tie(ctx, pend, oexe, exes):
     # modeling errors in declarations and in time-point arithmetic, object variables without values, same-named predicates, long
     # operator chains -- with valid programs of the same shapes
     progs += G.structural_programs(rng, extra=1 if ctx.thorough else 0)
+    # products with a constant that is exactly zero over unbounded variables, cancelling sums, products over variables whose bounds
+    # already coincide: valid programs (or the verdict when the comparison is false) -- no assertion, no wrong 'unsolvable'
+    progs += [(k, t, want) for k, t, want, _ in G.zero_programs()]
+    progs += [("fixed-bounds:" + p["tags"][1], p["text"], "OK1") for p in G.fixed_var_programs(rng, 300 if ctx.thorough else 40)]
     # valid programs of the same shapes (non-zero divisors, linear products, well-typed connectives): must be accepted
     for _ in range(400 if ctx.thorough else 60):
         names = ["x%d" % i for i in range(rng.choice([0, 1, 2]))]
@@ -262,7 +266,9 @@ def semantic_tie(ctx, pend, oexe, exes):
         if want == "ERR" and fam in ("div0", "nonlinear", "ill-typed") and m not in ("SEMERR", "SKIP"):
             bad += 1
             pend.violation("corr:semantic:model-accepts:" + fam, {"kind": "model", "program": t, "model": model[i]}, no_input=True)
-        if want == "OK1" and m not in ("OK", "SKIP"):
+        # (the evaluation model calls a factor constant only if it has no variable: products over variables with coinciding bounds are
+        #  outside it, and the 0x1E separator of successive read() calls is not RIDDLE text)
+        if want == "OK1" and m not in ("OK", "SKIP") and fam != "fixed-bounds":
             bad += 1
             pend.violation("corr:semantic:model-rejects-valid", {"kind": "model", "program": t, "model": model[i]}, no_input=True)
         for name, out in res.items():
